@@ -15,6 +15,17 @@ pub fn compile(code: &str, vars: &[String]) -> Result<Filter, String> {
     })
 }
 
+/// Compile; a rejected filter must come with diagnostics that render (every span inside the text).
+pub fn compile_diag(code: &str) -> Result<Filter, String> {
+    jaq_all::compile_with(code, jaq_all::defs(), jaq_all::data::funs(), &[]).map_err(|errs| {
+        let mut out = String::new();
+        for e in &errs {
+            out.push_str(&format!("{}", jaq_all::load::FileReportsDisp::new(e)));
+        }
+        out
+    })
+}
+
 /// One observed item of a run.
 #[derive(Debug, Clone)]
 pub enum Item {
